@@ -1,2 +1,2 @@
 (* All per-step facts about actor_step. *)
-From Zinoma.Proofs Require Export ActorFacts ActorFacts2 AF_unav_shrink AF_unav_grow AF_reqs_grow AF_reqs_shrink AF_acts AF_executed AF_oneshot AF_start_count AF_exit AF_balance AF_service AF_actsadd AF_nopending.
+From Zinoma.Proofs Require Export ActorFacts ActorFacts2 AF_unav_shrink AF_unav_grow AF_reqs_grow AF_reqs_shrink AF_acts AF_executed AF_oneshot AF_start_count AF_exit AF_balance AF_service AF_actsadd AF_nopending AF_watch.
